@@ -12,12 +12,10 @@
 import collections
 import os
 import random
-import re
 import sys
 from concurrent.futures import ThreadPoolExecutor
 from fractions import Fraction
 
-import emit
 import t1
 import vlib
 from checks import c17gen
@@ -35,7 +33,7 @@ def has_strided_matrix(desc):
     getUnderlyingArrayMinimalSize differs from (N-1)*Stride+M)"""
     t = desc.split()
     for i, x in enumerate(t):
-        if x == "M" and i + 3 < len(t) + 0:
+        if x == "M" and i + 3 < len(t):
             n, m, s = int(t[i + 1]), int(t[i + 2]), int(t[i + 3])
             if s != m and n != m:
                 return True
@@ -221,7 +219,6 @@ def run(ck):
     progs = generate(ck, nprog)
     chunks = [progs[i:i + per_tu] for i in range(0, len(progs), per_tu)]
     cv = vlib.REPO + "/src/Exception/ContractViolation.cxx"
-    gdir = os.path.join(vlib.VERIF, "harness", "C17")
     jobs = [("c17idx1", ["C17/indices.cxx", cv], ("-DC17_PART=1",)), ("c17idx2", ["C17/indices.cxx", cv], ("-DC17_PART=2",)),
             ("c17idx3", ["C17/indices.cxx", cv], ("-DC17_PART=3",))]
     for i, ch in enumerate(chunks):
